@@ -231,6 +231,25 @@ func replay(in input) map[string]any {
 			if pan == "" {
 				w.h = c
 			}
+		case "expimpd":
+			// as "expimp", but the original goes on being used after the copy was taken; the copy must not notice
+			var c *hdrhist.Histogram
+			var e1, e2 bool
+			pan = call(func() {
+				c = hdrhist.Import(w.h.Export())
+				e1, e2 = c.Equals(w.h), w.h.Equals(c)
+				if st.N == 0 {
+					w.h.Reset()
+				} else {
+					err = w.h.RecordValue(st.V)
+				}
+			})
+			if pan == "" && (!e1 || !e2) {
+				return fail(in, k, "hdr/export-import/not-equal", fmt.Sprintf("%s: Import(Export(h)).Equals(h)=%v, h.Equals(copy)=%v", shape, e1, e2))
+			}
+			if pan == "" {
+				w.h = c
+			}
 		case "mergeempty":
 			var e *hdrhist.Histogram
 			var dropped int64
